@@ -254,3 +254,18 @@ void fibre_eventq_release(fibre_eventq_t *evtq, void *evtp)
 {
 	messageq_release(&evtq->eventq, evtp);
 }
+
+#ifdef LIBRFN_VERIF
+/* Verification hook: return the static scheduler state (run queue, timer
+ * queue, atomic run queue, current fibre) to its initial value so that
+ * independent histories can be run in one process. Not part of the API.
+ */
+void fibre_verif_reset(void);
+void fibre_verif_reset(void)
+{
+	memset(&kernel, 0, sizeof(kernel));
+	memset(atomic_runq_buf, 0, sizeof(atomic_runq_buf));
+	messageq_init(&kernel.atomic_runq, atomic_runq_buf,
+		      sizeof(atomic_runq_buf), sizeof(atomic_runq_buf[0]));
+}
+#endif
